@@ -8,6 +8,7 @@
 //!      LIVE = every node connected to a handle of T through parent / child / template-contents links;
 //!   4. feed D[k..] and finish; every handle created before the split that the tree builder passes to the sink after the
 //!      split must be in LIVE.
+//! A line `#frag:NAME:INPUT` is parsed as a fragment with the HTML context element NAME (which only the tree builder references).
 //! `--selfcheck FILE`: every line of FILE (escapes \n \r \t \0 \\ \u{..}) x every split point x (no victim | each element
 //! node existing at the split); prints INCONSISTENT for a handle used after the split that was not kept alive.
 use std::borrow::Cow;
@@ -17,7 +18,7 @@ use std::collections::{BTreeSet, HashMap};
 use html5ever::interface::tree_builder::Tracer;
 use html5ever::tendril::*;
 use html5ever::tree_builder::{ElementFlags, NodeOrText, QuirksMode, TreeSink};
-use html5ever::{expanded_name, local_name, namespace_url, ns, parse_document, Attribute, ExpandedName, QualName};
+use html5ever::{expanded_name, local_name, namespace_url, ns, parse_document, parse_fragment, Attribute, ExpandedName, LocalName, QualName};
 
 #[derive(Default)]
 struct Node {
@@ -207,7 +208,15 @@ fn unescape(s: &str) -> String {
 
 /// one run; Ok(number of element nodes at the split) or Err(description of the first untraced use)
 fn run(doc: &str, k: usize, victim: Option<usize>) -> Result<usize, String> {
-    let mut parser = parse_document(Sink::new(), Default::default());
+    // `#frag:NAME:` in front of the input: parse the rest as a fragment with the HTML context element NAME
+    let (ctx, doc, k) = match doc.strip_prefix("#frag:").and_then(|r| r.split_once(':')) {
+        Some((c, rest)) => (Some(c), rest, k.saturating_sub(doc.len() - rest.len())),
+        None => (None, doc, k),
+    };
+    let mut parser = match ctx {
+        Some(c) => parse_fragment(Sink::new(), Default::default(), QualName::new(None, ns!(html), LocalName::from(c)), vec![], false),
+        None => parse_document(Sink::new(), Default::default()),
+    };
     parser.process(StrTendril::from_slice(&doc[..k]));
     let (elems, created, uses_before, live, traced) = {
         let tb = &parser.tokenizer.sink;
